@@ -66,6 +66,9 @@ enum Cmd {
 struct AlgCfg {
     name: &'static str,
     inst: bool,
+    /// how often the runtime asked this algorithm for its programs: the documentation promises ONCE ("called once, when Portus
+    /// initializes"); an algorithm may hand a prepared table over, so every later call answers with an empty table
+    dp_calls: AtomicUsize,
     progs: Vec<(&'static str, String)>,
     nf: Vec<Cmd>,
     or: Vec<Cmd>,
@@ -228,6 +231,7 @@ fn parse(args: &[&str]) -> Option<(Vec<AlgCfg>, VecDeque<Item>)> {
                 "0" => false,
                 _ => return None,
             },
+            dp_calls: AtomicUsize::new(0),
             progs: parse_progs(a[3])?,
             nf: parse_cmds(a[5])?,
             or: parse_cmds(a[7])?,
@@ -456,6 +460,9 @@ impl<const N: usize> CongAlg<Sock> for Alg<N> {
     }
 
     fn datapath_programs(&self) -> HashMap<&'static str, String> {
+        if self.cfg.dp_calls.fetch_add(1, Ordering::SeqCst) > 0 {
+            return HashMap::new();
+        }
         self.cfg.progs.iter().cloned().collect()
     }
 
